@@ -95,6 +95,19 @@ def check (pid : String) (j : Json) : Except String Verdict := do
   let kind ← jStr j "kind"
   let n ← jNat j "n"
   let o ← j.getObjVal? "obs"
+  if kind = "slow-outage" then
+    -- model: while stream creation fails the receiver holds nothing (`rFail` then nothing until a stream exists): a lookup
+    -- takes its own steps - cached: served; unknown: subscribes (the request waits in the channel), gives up at its deadline
+    let miss := jStrD o "miss" "?"
+    let hit := jStrD o "hit" "?"
+    let missMs := jNatD o "missMs" 0
+    let hitMs := jNatD o "hitMs" 0
+    let ft := jNatD o "fetchTimeoutMs" 50
+    let slack := 700
+    let ok := miss = "err:timeout" && hit.startsWith "val:" && missMs ≤ ft + slack && hitMs ≤ slack && jBoolD o "reconnected" false
+    return { nontrivial := jNatD o "attemptsWhenLookedUp" 0 ≥ 2
+             mismatch := if ok then none else some s!"slow outage: model: lookups take their own steps while the client reconnects; impl: unknown name -> {miss} after {missMs} ms (fetch timeout {ft} ms), cached name -> {hit} after {hitMs} ms, reconnected={jBoolD o "reconnected" false}"
+             specfail := if ok then none else some s!"{if pid = "C05" then "C05.bounded_time" else "C04.lookups_during_outage"}: while stream creation kept failing (the client's own back-off between attempts), a lookup of an unknown name returned '{miss}' after {missMs} ms (fetch timeout {ft} ms) and a lookup of a CACHED name '{hit}' after {hitMs} ms: lookups wait for the reconnect instead of returning at their deadline" }
   if kind = "drain-race" then
     -- model: `rDrain` takes what is in the channel at that moment and never waits (fact `drainThenPublish`); the hand-off and
     -- the adoption follow whatever the sender took meanwhile (`comes_to_rest`)
